@@ -6,6 +6,12 @@ to parcorFixed for sq = k*k) on binary64 bit patterns with `k ** 2` = libm pow, 
 the comparison impl <-> twin is BIT FOR BIT (no tolerance).  The exact specification on the rational
 values of the same coefficients is compared with a tolerance only where the recursion is well conditioned.
 
+entry "flevinson" (round 4): `levinson_durbin(r, order)` on float autocorrelation data.  The Lean side runs the
+recursion of the theorems (ALV.C11.levinsonG, proved equal to ALV.C11.levinson for the left-fold sum on any
+carrier and for CPython's compensated sum over any field) on binary64 bit patterns with `sum` = CPython >= 3.12's
+Neumaier summation: numerator and `error` are compared BIT FOR BIT; the exact recursion on the rational values
+of the same numbers is compared with a tolerance where it is well conditioned.
+
 entry "call": any ZFilter(num, den) with Laurent numerator / denominator (negative powers, missing power 0,
 leading / trailing zeros, constant / zero / feedback denominators), built from dicts, lists or z-expressions,
 called positionally or by keyword.
@@ -15,6 +21,7 @@ import common
 from common import err_kind, enc, encl, dec, decl, close_list
 from fractions import Fraction as F
 
+ENTRIES = ("fparcor", "call", "flevinson")
 TOL = F(1, 10**9)
 EPS = F(1, 10**16)
 SAFETY = 1000
@@ -112,6 +119,66 @@ def gen_float(rng, n):
     return out
 
 
+def case_flev(r, order, how):
+    return {"entry": "flevinson", "r": [float(x) for x in r], "order": order, "how": how}
+
+
+def _acorr_from_ks(ks, r0):
+    """float autocorrelation whose (exact) Levinson recursion has reflection coefficients close to ks"""
+    r, a, e = [r0], [1.0], r0
+    for m, k in enumerate(ks, 1):
+        acc = sum(a[i] * r[m - i] for i in range(1, m))
+        r.append(-k * e - acc)
+        ext = a + [0.0]
+        a = [x + k * y for x, y in zip(ext, ext[::-1])]
+        e = e * (1 - k * k)
+    return r
+
+
+def gen_flev(rng, n):
+    out = []
+    for _ in range(n):
+        order = rng.choice([1, 2, 3, 3, 4, 5, 6, 8])
+        t = rng.random()
+        if t < 0.45:
+            # a positive definite autocorrelation: reflection coefficients chosen in (-0.95, 0.95)
+            ks = [rng.uniform(-0.95, 0.95) for _ in range(order)]
+            r = _acorr_from_ks(ks, rng.choice([1.0, 2.0, rng.uniform(0.1, 50)]))
+            how = "float-from-ks"
+        elif t < 0.60:
+            # autocorrelation of a short random block (what lpc.autocor hands over)
+            blk = [rng.uniform(-1, 1) for _ in range(rng.randint(order + 1, order + 12))]
+            r = [sum(blk[i] * blk[i + l] for i in range(len(blk) - l)) for l in range(order + 1)]
+            how = "float-acorr-of-block"
+        elif t < 0.72:
+            # integral-valued floats (exact products, sums below 2^53)
+            r = [float(rng.randint(20, 60))] + [float(rng.randint(-9, 9)) for _ in range(order)]
+            how = "float-integral"
+        elif t < 0.82:
+            # near-singular: one reflection coefficient within 1e-3 .. 1e-12 of +-1
+            ks = [rng.uniform(-0.9, 0.9) for _ in range(order)]
+            ks[rng.randrange(order)] = rng.choice([1, -1]) * (1 - 10.0 ** -rng.randint(3, 12))
+            r = _acorr_from_ks(ks, 1.0)
+            how = "float-near-singular"
+        elif t < 0.90:
+            # really singular in binary64: r = [c, c] / [c, -c] (k = -+1 at step 1) or r0 = 0
+            c = rng.choice([1.0, 2.5, rng.uniform(0.1, 9)])
+            r = rng.choice([[c, c], [c, -c], [0.0, c], [c, -c, c, -c]]) + [rng.uniform(-1, 1) for _ in range(order)]
+            how = "float-singular"
+        else:
+            r = [rng.uniform(-3, 3) for _ in range(order + 1)]              # raw (indefinite): only the twin judges
+            how = "raw"
+        u = rng.random()
+        if u < 0.7:
+            r, o = r[:order + 1], order
+        elif u < 0.85:
+            o = max(1, order - rng.choice([1, 2]))                           # order below len(r) - 1
+        else:
+            o = order + rng.choice([1, 2])                                   # zero extension (appended int 0)
+        out.append(case_flev(r, o, how))
+    return out
+
+
 def case_call(num_lo, num, den_lo, den, build="dict", kw=False, spell="fraction"):
     c = {"entry": "call", "num_lo": num_lo, "num": encl(num), "den_lo": den_lo, "den": encl(den),
          "build": build, "kw": kw}
@@ -179,6 +246,12 @@ def generate(rng, tier, scale=1):
     quick = tier == "quick"
     n = (260 if quick else 3500) * scale
     cases = gen_float(rng, n) + gen_call(rng, (160 if quick else 1500) * scale)
+    cases += gen_flev(rng, (200 if quick else 3000) * scale)
+    if scale == 1:
+        cases.append(case_flev([12.0, 6.0, 0.0, -3.0, -6.0, -3.0, 0.0, 2.0, 4.0, 2.0], 3, "doc"))
+        cases.append(case_flev([1.0, 2.0, 3.0, 4.0, 5.0, 3.0, 2.0, 1.0], 7, "doc"))
+        cases.append(case_flev([0.1, 0.2, 0.3], 2, "doc"))
+        cases.append(case_flev([1.0, 1.0, 1.0], 2, "float-singular"))
     if scale == 1:
         # every int lead 1..300 with a fixed, well conditioned order-3 pole set (1/2, 1/7, 3/7 scaled)
         for g in (range(1, 301) if not quick else BAD_INTS[:12] + [1, 2, 16]):
@@ -218,6 +291,18 @@ def impl(c):
         except Exception as ex:
             o["stable"] = {"err": err_kind(ex)}
         return o
+    if e == "flevinson":
+        from audiolazy import levinson_durbin
+        from audiolazy.lazy_lpc import ParCorError
+        try:
+            f = levinson_durbin(list(c["r"]), c["order"])
+        except ParCorError:
+            return {"err": "ParCorError"}
+        except Exception as ex:
+            return {"err": err_kind(ex)}
+        a = list(f.numerator)
+        return {"a": [bits(x) for x in a], "error": bits(f.error),
+                "types": sorted(set(type(x).__name__ for x in a + [f.error]))}
     if e == "call":
         num, den = _spell(decl(c["num"]), c.get("spell")), _spell(decl(c["den"]), c.get("spell"))
         nl, dl = c["num_lo"], c["den_lo"]
@@ -251,6 +336,8 @@ def impl(c):
 def request(c):
     if c["entry"] == "fparcor":
         return {"entry": "fparcor", "bits": [bits(x) for x in c["num"]]}
+    if c["entry"] == "flevinson":
+        return {"entry": "flevinson", "bits": [bits(x) for x in c["r"]], "order": c["order"]}
     return {k: v for k, v in c.items() if k not in ("build", "kw", "spell")}
 
 
@@ -309,6 +396,48 @@ def compare(c, io, drv):
                 out.append(("spec", "parcor_stable on floats %s but the exact verdict is %s" % (
                     io["stable"], drv["exact_stable"])))
         return out
+    if e == "flevinson":
+        tw = drv["twin"]
+        if not drv["input_finite"] or ("err" not in tw and not tw["finite"]):
+            io["compared"] = "not compared (non-finite)"
+            return out
+        io["compared"] = "bit-exact twin"
+        io["fold_same"] = drv["twin_fold"] == tw
+        if "err" in io or "err" in tw:
+            if io.get("err") != tw.get("err"):
+                out.append(("model", "levinson_durbin on floats: impl %r, binary64 twin %r" % (
+                    io.get("err", "returns"), tw.get("err", "returns"))))
+            if "err" in io and io["err"] != "ParCorError":
+                out.append(("spec", "levinson_durbin on floats raised " + io["err"]))
+            return out
+        # 1. bit for bit: Poly keeps no zero coefficient, the twin's list is dense
+        ta = list(tw["a"])
+        while len(ta) > 1 and ta[-1] == 0:
+            ta.pop()
+        ia = [0 if unbits(b) == 0 else b for b in io["a"]]
+        if ia != ta or io["error"] != tw["error"]:
+            out.append(("model", "levinson_durbin on floats %r error %r; binary64 twin %r error %r" % (
+                [unbits(b) for b in io["a"]], unbits(io["error"]), [unbits(b) for b in tw["a"]], unbits(tw["error"]))))
+        # 2. against the exact recursion on the same numbers, where it is well conditioned
+        ex = drv["exact"]
+        io["judged_vs_exact"] = False
+        if "err" not in ex:
+            ks = decl(ex["ks"])
+            r0 = abs(F(c["r"][0])) if c["r"] else F(1)
+            scale_ = max([abs(F(x)) for x in c["r"]] + [F(1)]) / min(r0, F(1)) if r0 else None
+            if scale_ is not None and all(abs(1 - k * k) > F(1, 20) for k in ks) and \
+                    _float_err(ks[::-1]) * scale_ * len(c["r"]) <= TOL / 10:
+                io["judged_vs_exact"] = True
+                ga = [F(unbits(b)) for b in io["a"]]
+                xa = decl(ex["a"])
+                n = max(len(ga), len(xa))
+                if not close_list(ga + [F(0)] * (n - len(ga)), xa + [F(0)] * (n - len(xa)), TOL):
+                    out.append(("spec", "levinson_durbin on floats: numerator %r, exact %r" % (
+                        [unbits(b) for b in io["a"]], [float(x) for x in xa])))
+                rel = TOL * max(F(1), abs(dec(ex["spec_error"])))
+                if abs(F(unbits(io["error"])) - dec(ex["spec_error"])) > rel:
+                    out.append(("spec", "error %r is not r0*prod(1-k^2) = %r" % (unbits(io["error"]), float(dec(ex["spec_error"])))))
+        return out
     if e == "call":
         mp, ms = drv["parcor"], drv["stable"]
         if "construct_err" in io:
@@ -359,6 +488,8 @@ def compare(c, io, drv):
 def nontrivial(c, io):
     if c["entry"] == "fparcor":
         return len(c["num"]) >= 2 and io.get("compared") == "bit-exact twin"
+    if c["entry"] == "flevinson":
+        return c["order"] >= 1 and io.get("compared") == "bit-exact twin"
     return "construct_err" not in io
 
 
@@ -378,6 +509,15 @@ def tally(eng, c, io):
         if "err" not in p:
             eng.count("float_parcor_branch", "ParCorError" if p.get("raised") else "completed")
             eng.count("float_stable", io.get("stable"))
+    elif e == "flevinson":
+        eng.count("flev_order", c["order"])
+        eng.count("flev_how", c.get("how", "?"))
+        eng.count("flev_outcome", io.get("err", "returned"))
+        eng.count("flev_order_vs_len", "order>=len(r)" if c["order"] >= len(c["r"]) else
+                  "order=len(r)-1" if c["order"] == len(c["r"]) - 1 else "order<len(r)-1")
+        eng.count("flev_judged_vs_exact", io.get("judged_vs_exact"))
+        eng.count("flev_compensated_vs_fold_run", "same" if io.get("fold_same", True) else
+                  "DIFFERENT (compensated sum != left fold)")
     else:
         eng.count("call_build", c.get("build", "dict") + ("+kw" if c.get("kw") else ""))
         eng.count("call_spelling", c.get("spell", "fraction"))
@@ -406,6 +546,17 @@ def shrink(c):
             for y in (0, 1, round(num[i]), round(num[i], 3), round(num[i], 1)):
                 if y != num[i] and not (i in (0, len(num) - 1) and y == 0) and len(repr(y)) < len(repr(num[i])):
                     yield case_f(num[:i] + [y] + num[i + 1:], c.get("how", "?"))
+    elif e == "flevinson":
+        r, o = list(c["r"]), c["order"]
+        if o > 1:
+            yield case_flev(r, o - 1, c.get("how", "?"))
+            yield case_flev(r[:o], o - 1, c.get("how", "?"))
+        if len(r) > o + 1:
+            yield case_flev(r[:o + 1], o, c.get("how", "?"))
+        for i in range(len(r)):
+            for y in (0.0, 1.0, float(round(r[i])), round(r[i], 3), round(r[i], 1)):
+                if y != r[i] and len(repr(y)) < len(repr(r[i])):
+                    yield case_flev(r[:i] + [y] + r[i + 1:], o, c.get("how", "?"))
     elif e == "call":
         num, den = decl(c["num"]), decl(c["den"])
         if c.get("spell"):
@@ -441,6 +592,8 @@ def classify(c, io, drv):
     e = c["entry"]
     if e == "fparcor":
         return "fparcor:float-coefficients-differ-from-exact"
+    if e == "flevinson":
+        return "flevinson:%s" % (io.get("err") or "float-result-differs-from-exact")
     p = io.get("parcor", {})
     return "call:%s" % (p.get("err") or "wrong-coefficients-or-verdict")
 
@@ -467,3 +620,25 @@ def extra_checks(eng):
                "1 - k ** 2 == 0.0 for a float k next to 1")
     except Exception as ex:
         yield ("float-twin-pow-is-cpython-pow", False, "driver fpow failed: %r" % (ex,))
+    # the summation function of the Levinson twin is the builtin sum of THIS interpreter on floats
+    try:
+        ls = [[rng.uniform(-1, 1) * 10.0 ** rng.randint(-3, 3) for _ in range(rng.randint(1, 30))] for _ in range(1500)]
+        ls += [[1e16, 1.0, -1e16], [1.0, 1e100, 1.0, -1e100], [0.1] * 10, [-0.0, 0.0], [1e308, 1e308, -1e308], [3.0]]
+        r = eng.driver.batch([{"id": "C11", "entry": "fsum", "lists": [[bits(x) for x in l] for l in ls]}])[0]
+        r = r.get("ok", r)
+        nz = lambda v: bits(v) if v != 0 else 0
+        want = [nz(sum(l)) for l in ls]
+        def fold(l):
+            s_ = 0.0
+            for x in l:
+                s_ = s_ + x
+            return s_
+        wfold = [nz(fold(l)) for l in ls]
+        fin = [i for i, l in enumerate(ls) if sum(l) == sum(l) and abs(sum(l)) != float("inf")]
+        ok = all(r["sum"][i] == want[i] and r["fold"][i] == wfold[i] for i in fin)
+        eng.count("builtin_sum_vs_left_fold", "sum(l) != left fold on %d of %d table entries" % (
+            sum(1 for i in fin if want[i] != wfold[i]), len(fin)))
+        yield ("float-twin-sum-is-cpython-sum", ok,
+               "sumPyG F64.isFinite / lsum of the driver differ from the builtin sum / the left fold on the fixed table")
+    except Exception as ex:
+        yield ("float-twin-sum-is-cpython-sum", False, "driver fsum failed: %r" % (ex,))
